@@ -6,7 +6,10 @@ Implementation side (observed at the public interfaces only):
     from the real `mokapot.read_fasta` on generated FASTA text,
   * `targets.proteins` / `decoys.proteins` (and `*.peptides`) written by `assign_confidence(proteins=...)`,
   * `mokapot.picked_protein.strip_peptides` for exotic notations that never survive the mapping checks.
-Model side: driver ops `strip`, `picked`, `pickedq`, `spec-C15` (+ `qspec` of C01).
+  * `mokapot.peptides.match_decoy` (the pairing step of `group_without_decoys`, target-only FASTA), with the
+    seeded shuffle obtained independently from the pandas primitive `Series.sample` itself.
+Model side: driver ops `strip`, `picked`, `pickedq`, `spec-C15`, `matchdecoy`, `pickedfull`, `pickedfiles`
+(+ `qspec` of C01).
 The spec is evaluated on the implementation's output twice, independently of the model: by the Lean
 checker `spec-C15` (proved equivalent to `SpecEntries`) and by a direct Python re-statement that uses the
 generator's ground truth (the residue sequence behind every rendered peptide) instead of any stripping.
@@ -37,7 +40,10 @@ warnings.simplefilter("ignore")
 RULE = (
     "cases = (FASTA text with subset/duplicate/overlapping proteins, with or without decoy entries -> real "
     "read_fasta -> Proteins; peptide table rendered in one of 9 modification/flank notations; scores tie-free or "
-    "tied; seed; entry point picked_protein or assign_confidence result files); distinct = distinct (protein "
+    "tied; seed given as int or numpy Generator; row labels of the table range/permuted/offset/duplicated; entry point "
+    "picked_protein or assign_confidence result files, the latter from text or Parquet input, with decoys=True/False, "
+    "descs=[True]/[False], tie-free or tied scores; match_decoy on random target/decoy lists; strip_peptides on "
+    "well-formed, listed exotic and random bracket/dot strings); distinct = distinct (protein "
     "maps, stripped table with score ranks and labels); non-trivial = at least one pair with >= 2 candidate rows "
     "or a shared/unmappable peptide in the table; thorough adds the exhaustive sweep over all tables of <= 3 rows "
     "(7 peptide kinds x 3 score values) and all 4-row tables over 4 peptide kinds x 2 score values, on a "
@@ -78,10 +84,11 @@ def rev_pep(p: str) -> str:
     return p[:-1][::-1] + p[-1]
 
 
-def gen_db(rng, big=False):
-    """FASTA text with subset / duplicate / overlapping proteins"""
-    alpha = rng.sample(AA, rng.choice([1, 2, 2, 3, 5]))
-    npool = rng.choice([1, 2, 3, 4, 5, 6, 8] + ([12, 20] if big else []))
+def gen_db(rng, big=False, wide=False):
+    """FASTA text with subset / duplicate / overlapping proteins; `wide`: many proteins with peptides of their own,
+    so that the protein level has enough target/decoy pairs for its q-values to differ from 1"""
+    alpha = rng.sample(AA, rng.choice([3, 5] if wide else [1, 2, 2, 3, 5]))
+    npool = rng.choice([12, 16, 20] if wide else [1, 2, 3, 4, 5, 6, 8] + ([12, 20] if big else []))
     pool = []
     tries = 0
     while len(pool) < npool and tries < 200:
@@ -91,8 +98,8 @@ def gen_db(rng, big=False):
         if p not in pool:
             pool.append(p)
     npool = len(pool)
-    nprot = rng.choice([1, 2, 2, 3, 3, 4, 5, 6] + ([9, 14] if big else []))
-    pat = rng.choice(["random", "random", "chain", "dups", "star", "disjoint"])
+    nprot = rng.choice([6, 9, 12] if wide else [1, 2, 2, 3, 3, 4, 5, 6] + ([9, 14] if big else []))
+    pat = rng.choice(["disjoint", "disjoint", "star", "random"] if wide else ["random", "random", "chain", "dups", "star", "disjoint"])
     sets = []
     for j in range(nprot):
         if pat == "random":
@@ -104,7 +111,7 @@ def gen_db(rng, big=False):
             if rng.random() < 0.3 and len(s) > 1:
                 s = rng.sample(s, rng.randint(1, len(s)))
         elif pat == "star":
-            s = [pool[0]] + [p for p in pool[1:] if rng.random() < 0.3]
+            s = [pool[0]] + [p for p in pool[1:] if rng.random() < (0.12 if wide else 0.3)]
         else:
             s = [pool[j % npool]]
         s = list(s)
@@ -155,7 +162,7 @@ def gen_db(rng, big=False):
     fasta = "\n".join(lines) + "\n"
     params = dict(enzyme="[KR]", missed_cleavages=rng.choice([0, 0, 0, 1]), min_length=2, max_length=50,
                   decoy_prefix=prefix)
-    return dict(fasta=fasta, params=params, pool=pool, mode=mode, pat=pat)
+    return dict(fasta=fasta, params=params, pool=pool, mode=mode, pat=pat, wide=wide)
 
 
 def load_proteins(db):
@@ -268,7 +275,7 @@ def gen_table(rng, db, P, big=False, e2e=False):
     if not P["has_decoys"] and uniq_t:
         kinds += ["ana"] * 5 + ["revsh"] * (1 if shared else 0) + ["junkd"]
     junk_rate = rng.choice([0, 0, 0, 0.03, 0.08, 0.15, 0.4])
-    n = rng.choice([1, 2, 3, 4, 5, 6, 8, 10, 12, 16, 20, 30] + ([40, 60, 100] if big else []))
+    n = rng.choice([12, 16, 20, 30, 40] if (db or {}).get("wide") else [1, 2, 3, 4, 5, 6, 8, 10, 12, 16, 20, 30] + ([40, 60, 100] if big else []))
     flip = rng.choice([0, 0, 0, 0.05, 0.2])
     style = rng.choice(STYLES + (["sparse"] * 3 if n >= 10 else []))
     rows = []
@@ -297,7 +304,17 @@ def gen_table(rng, db, P, big=False, e2e=False):
     # one notation per table; different renderings of the same sequence are different rows
     for r in rows:
         r["peptide"] = render(rng, r["seq"], style)
-    smode = "tiefree" if e2e else rng.choice(["tiefree", "tiefree", "ties", "ties", "allequal"])
+    # options of the assign_confidence entry point (input format, decoy files, score orientation); a run without the
+    # decoy files hides the decoy rows, so its expected peptide level is only computable when no two scores tie
+    opts = None
+    if e2e:
+        opts = dict(fmt=rng.choice(["pin", "pin", "parquet"]), decoys=rng.random() < 0.7, desc=rng.random() < 0.7)
+    if e2e:
+        # (tied scores also leave the row order of the peptide level, hence the draw of match_decoy, to the code:
+        #  only with decoys in the FASTA)
+        smode = rng.choice(["tiefree", "tiefree", "ties"]) if (opts["decoys"] and P["has_decoys"]) else "tiefree"
+    else:
+        smode = rng.choice(["tiefree", "tiefree", "ties", "ties", "allequal"])
     denom = rng.choice([1, 1, 2, 4])
     if smode == "tiefree":
         vals = rng.sample(range(-3 * n - 5, 4 * n + 5), n)
@@ -309,7 +326,8 @@ def gen_table(rng, db, P, big=False, e2e=False):
     for r, v in zip(rows, vals):
         r["score"] = str(Fraction(v, denom))
     return dict(P=P, rows=rows, style=style, smode=smode, seed=rng.choice([0, 0, 1, 2, 7, 42, 12345]),
-                index=rng.choice(["range", "range", "perm", "offset"]), sdtype=rng.choice(["float64", "float64", "int64", "float32"]) if denom == 1 else "float64",
+                rng_kind=rng.choice(["int", "int", "generator"]), opts=opts,
+                index=rng.choice(["range", "range", "range", "perm", "perm", "offset", "offset", "dup"]), sdtype=rng.choice(["float64", "float64", "int64", "float32"]) if denom == 1 else "float64",
                 pdtype=rng.choice(["str", "str", "object"]),
                 cols=rng.choice([("Label", "peptide", "score"), ("is_target", "Peptide", "mokapot score"), ("t", "seq", "s")]),
                 entry="e2e" if e2e else "direct", dbmode=db.get("mode") if db else None)
@@ -327,6 +345,9 @@ def case_df(case):
                        scol: sc})
     if case["index"] == "perm":
         df.index = np.random.RandomState(len(rows)).permutation(len(rows))
+    elif case["index"] == "dup":
+        # row labels that repeat (what pd.concat of several peptide tables without ignore_index leaves)
+        df.index = np.arange(len(rows)) % max(1, (len(rows) + 1) // 2)
     elif case["index"] == "offset":
         df.index = np.arange(len(rows)) * 3 + 100
     return df
@@ -355,6 +376,46 @@ def entries_of_frame(res, tcol, scol):
     return out
 
 
+_PERMS = {}
+
+
+def rng_arg(case):
+    """what is passed as `rng`: the integer seed, or a fresh numpy Generator seeded with it"""
+    return np.random.default_rng(case["seed"]) if case.get("rng_kind") == "generator" else case["seed"]
+
+
+def shuffle_perm(n, case):
+    """the arrangement `Series.sample(frac=1, random_state=rng)` draws for n items: obtained from the pandas
+    primitive itself on 0..n-1 (independent of any mokapot code); perm[i] = original position of the i-th item"""
+    if n == 0:
+        return []
+    key = (n, case["seed"], case.get("rng_kind", "int"))
+    if key not in _PERMS:
+        _PERMS[key] = [int(x) for x in pd.Series(np.arange(n)).sample(frac=1, random_state=rng_arg(case)).to_numpy()]
+    return _PERMS[key]
+
+
+@contextlib.contextmanager
+def record_pairing(log):
+    """observe the pairing the code really uses: the call of match_decoy made by group_without_decoys is wrapped
+    (module attribute, no source change) and its arguments and result are appended to `log`"""
+    import mokapot.picked_protein as pp
+
+    real = pp.match_decoy
+
+    def wrapped(decoys, targets, *a, **k):
+        d_in, t_in = [str(x) for x in decoys.to_list()], [str(x) for x in targets.to_list()]
+        out = real(decoys, targets, *a, **k)
+        log.append(dict(decoys=d_in, targets=t_in, result=[[str(k_), str(v_)] for k_, v_ in dict(out).items()]))
+        return out
+
+    pp.match_decoy = wrapped
+    try:
+        yield
+    finally:
+        pp.match_decoy = real
+
+
 def impl_direct(case):
     from mokapot.picked_protein import picked_protein
 
@@ -370,9 +431,10 @@ def impl_direct(case):
                 picked_protein(case_df(w), *w["cols"], P, w["seed"])
         except Exception:  # noqa: BLE001
             pass
+    case["_rec"] = []
     try:
-        with quiet():
-            res = picked_protein(df, tcol, pcol, scol, P, case["seed"])
+        with quiet(), record_pairing(case["_rec"]):
+            res = picked_protein(df, tcol, pcol, scol, P, rng_arg(case))
     except Exception as e:  # noqa: BLE001
         return classify_exc(e), None
     return "ok", entries_of_frame(res, tcol, scol)
@@ -399,15 +461,24 @@ def read_tsv(path):
     return pd.read_csv(path, sep="\t", float_precision="round_trip", keep_default_na=False, dtype=str)
 
 
+E2E_DEFAULT = dict(fmt="pin", decoys=True, desc=True)
+
+
+def e2e_opts(case):
+    return dict(E2E_DEFAULT, **(case.get("opts") or {}))
+
+
 def impl_e2e(case):
-    """assign_confidence(proteins=...) on a PIN file with one PSM per row; returns the observed peptide-level
-    table (the input of picked_protein) and the protein-level result files"""
+    """assign_confidence(proteins=...) on a PIN (text or Parquet) file with one PSM per row, with decoys=True/False
+    and descs=[True]/[False]; returns the observed peptide-level table (the input of picked_protein; complete only
+    when the decoy files are written) and the rows of targets.proteins / decoys.proteins in file order"""
     import mokapot
 
     rows = case["rows"]
+    opts = e2e_opts(case)
     d = Path(tempfile.mkdtemp(prefix="e2e-", dir=tmpdir()))
 
-    def run(rows, name, proteins, seed):
+    def run(rows, name, proteins, seed, opts):
         sc = np.array([float(Fraction(r["score"])) for r in rows], dtype=float)
         df = pd.DataFrame({
             "SpecId": [f"psm{i}" for i in range(len(rows))],
@@ -419,40 +490,49 @@ def impl_e2e(case):
             "Peptide": [r["peptide"] for r in rows],
             "Proteins": ["prot"] * len(rows),
         })
-        pin = d / (name + ".pin")
-        df.to_csv(pin, sep="\t", index=False)
+        if opts["fmt"] == "parquet":
+            pin = d / (name + ".parquet")
+            df.to_parquet(pin, index=False)
+        else:
+            pin = d / (name + ".pin")
+            df.to_csv(pin, sep="\t", index=False)
         out = d / name
         out.mkdir()
         with quiet(), pep_stub():
             ds = mokapot.read_pin(pin, max_workers=1)[0]
-            mokapot.assign_confidence([ds], max_workers=1, scores=[sc], dest_dir=out,
-                                      proteins=proteins, prefixes=[None], decoys=True, rng=seed)
+            mokapot.assign_confidence([ds], max_workers=1, scores=[sc], descs=[opts["desc"]], dest_dir=out,
+                                      proteins=proteins, prefixes=[None], decoys=opts["decoys"], rng=seed)
         return out
 
     try:
         proteins = mk_proteins(case["P"])
         if case.get("warm"):
             try:
-                run(case["warm"]["rows"], "warm", proteins, case["warm"]["seed"])
+                run(case["warm"]["rows"], "warm", proteins, case["warm"]["seed"], E2E_DEFAULT)
             except Exception:  # noqa: BLE001
                 pass
+        case["_rec"] = []
         try:
-            out = run(rows, "out", proteins, case["seed"])
+            with record_pairing(case["_rec"]):
+                out = run(rows, "out", proteins, rng_arg(case), opts)
         except Exception as e:  # noqa: BLE001
             return classify_exc(e), None, None
+        wanted = [("targets", True)] + ([("decoys", False)] if opts["decoys"] else [])
+        if not opts["decoys"] and any((out / ("decoys." + lv)).exists() for lv in ("psms", "peptides", "proteins")):
+            return "other:decoy-file-written-with-decoys-False", None, None
         pep_rows = []
-        for fn, tgt in (("targets.peptides", True), ("decoys.peptides", False)):
-            t = read_tsv(out / fn)
+        for fn, tgt in wanted:
+            t = read_tsv(out / (fn + ".peptides"))
             if t is None:
-                return "other:missing-" + fn, None, None
+                return "other:missing-" + fn + ".peptides", None, None
             for rec in t.to_dict("records"):
                 pep_rows.append(dict(target=tgt, peptide=rec["peptide"], score=str(Fraction(float(rec["score"])))))
         pep_rows.sort(key=lambda r: -Fraction(r["score"]))
         ents = []
-        for fn, tgt in (("targets.proteins", True), ("decoys.proteins", False)):
-            t = read_tsv(out / fn)
+        for fn, tgt in wanted:
+            t = read_tsv(out / (fn + ".proteins"))
             if t is None:
-                return "other:missing-" + fn, None, None
+                return "other:missing-" + fn + ".proteins", None, None
             for rec in t.to_dict("records"):
                 g = rec["mokapot protein group"]
                 ents.append(((g if g != "" else None), rec["best peptide"], rec["stripped sequence"],
@@ -477,7 +557,7 @@ def replicate_pairing(case, stripped):
         decoys = pd.Series([], dtype="str")
     with quiet():
         # (sorted keys: /repo fix D25 — the pairing must not depend on the hash-ordered key order of the map)
-        return dict(match_decoy(decoys, pd.Series(sorted(P["peptide_map"].keys())), rng=case["seed"]))
+        return dict(match_decoy(decoys, pd.Series(sorted(P["peptide_map"].keys())), rng=rng_arg(case)))
 
 
 # ----------------------------------------------------------------------------
@@ -558,6 +638,29 @@ def py_spec(P, rows, dm, entries):
     for key in cands:
         if key not in seen:
             return "a pair with a retained unique peptide has no entry"
+    return None
+
+
+def py_pairing_spec(P, rows, dm):
+    """target-only FASTA — the documented contract of the pairing, re-stated on the generator's ground truth
+    (independent of the Lean model and of the draw): every decoy sequence of the table is paired with "a unique
+    target peptide that has the same amino acid composition", and stays unpaired only when none is left.
+    `dm`: {decoy sequence: target peptide}.  None if met, else the violated clause."""
+    keys = list(P["peptide_map"].keys())
+    decs = list(dict.fromkeys(r["seq"] for r in rows if not r["target"]))
+    for d, t in dm.items():
+        if d not in decs:
+            return "pairing: a sequence that is not a decoy sequence of the table was paired"
+        if t not in keys:
+            return "pairing: partner is not a unique target peptide of the FASTA"
+        if sorted(d) != sorted(t):
+            return "pairing: decoy peptide paired with a target peptide of a different composition"
+    if len(set(dm.values())) != len(dm):
+        return "pairing: one target peptide given to two decoy sequences"
+    used = set(dm.values())
+    for d in decs:
+        if d not in dm and any(sorted(t) == sorted(d) and t not in used for t in keys):
+            return "pairing: decoy sequence left unpaired although a target peptide of its composition is unused"
     return None
 
 
@@ -648,11 +751,18 @@ def eval_direct(chk, cases):
             lines.append(req("spec-C15", *args, wire_entries(ents)))
         else:
             lines.append(req("pairkey", [], "x"))  # placeholder keeps the batch aligned
+        # the same table with the pairing *computed by the model* of match_decoy from the independently drawn shuffle
+        lines.append(req("pickedfull", *wire_P(c["P"]), shuffle_perm(len(c["P"]["peptide_map"]), c), wire_rows(c["rows"])))
     resp = common.driver_batch(lines)
     for k, (c, (st, ents)) in enumerate(zip(cases, impl)):
         P, rows, dm = c["P"], c["rows"], c["dm"]
-        model = parse_entries(dec(resp[2 * k]))
-        lean_spec = resp[2 * k + 1].strip()
+        model = parse_entries(dec(resp[3 * k]))
+        lean_spec = resp[3 * k + 1].strip()
+        fv = dec(resp[3 * k + 2])
+        dm_model, full_model = None, None
+        if isinstance(fv, list) and len(fv) == 2:
+            dm_model = {a_str(x[0]): a_str(x[1]) for x in fv[0]}
+            full_model = parse_entries(fv[1])
         stripped = c["_stripped"]
         chk.case(None, nontrivial_key(c, stripped),
                  sample=dict(peptide_map=P["peptide_map"], shared=P["shared"], has_decoys=P["has_decoys"],
@@ -667,9 +777,44 @@ def eval_direct(chk, cases):
         chk.count("n_groups", min(len(set(P["peptide_map"].values())), 10))
         chk.count("shared_in_db", bool(P["shared"]))
         chk.count("outcome", st if not st.startswith("other") else "other")
+        chk.count("rng", c.get("rng_kind", "int"))
+        chk.count("row_labels", c["index"])
         if c.get("_mm"):
             chk.count("pair_member_order_mismatch_in_db", True)
         cj = dict(case=jsonable({k_: v for k_, v in c.items() if not k_.startswith("_")}))
+        # target-only FASTA: the pairing drawn by the real match_decoy (replicated call) against its contract and
+        # against the model's pairing computed from the independently drawn shuffle
+        if not P["has_decoys"] and len(stripped) == len(rows) and all(s_ == r.get("seq") for s_, r in zip(stripped, rows)):
+            ndec = len(set(r["seq"] for r in rows if not r["target"]))
+            chk.count("pairing_decoy_seqs", min(ndec, 8))
+            chk.count("pairing_paired", min(len(dm), 8))
+            rec = c.get("_rec") or []
+            used = dict(map(tuple, rec[0]["result"])) if len(rec) == 1 else None   # the pairing the code really used
+            pclause = py_pairing_spec(P, rows, dm) or (py_pairing_spec(P, rows, used) if used is not None else None)
+            if pclause is None and len(rec) > 1:
+                pclause = "pairing: drawn more than once for one table"
+            if pclause:
+                chk.spec_violation("spec:" + pclause, dict(**cj, impl=[list(x) for x in (used if used is not None else dm).items()],
+                                                           expected=[list(x) for x in (dm_model or {}).items()], clause=pclause))
+                continue
+            if dm_model is None or list(dm_model.items()) != list(dm.items()):
+                chk.corr_break("matchdecoy", dict(**cj, impl=[list(x) for x in dm.items()],
+                                                  model=None if dm_model is None else [list(x) for x in dm_model.items()]))
+                continue
+            if used is not None and (list(used.items()) != list(dm_model.items())
+                                     or rec[0]["targets"] != sorted(P["peptide_map"].keys())
+                                     or rec[0]["decoys"] != list(dict.fromkeys(s_ for s_, r in zip(stripped, rows) if not r["target"]))):
+                # a valid pairing, but not the one the model of group_without_decoys computes from the same draw
+                # (other arguments handed to match_decoy: unsorted keys, repeated decoy sequences, ...)
+                chk.corr_break("pairing-args", dict(**cj, impl=rec[0], model=[list(x) for x in dm_model.items()]))
+                continue
+        if full_model is None or (isinstance(full_model, str) != isinstance(model, str)) or \
+                (isinstance(model, str) and full_model != model) or \
+                (not isinstance(model, str) and sorted(full_model) != sorted(model)):
+            # with equal pairings the two model entry points must agree (picked with the given pairing, pickedFull
+            # with the computed one)
+            chk.corr_break("pickedfull", dict(**cj, model_given_pairing=str(model)[:600], model_computed_pairing=str(full_model)[:600]))
+            continue
         # ground truth of the notation: the model's stripping must be the residue sequence (wf notations)
         if c["style"] in STYLES and len(stripped) == len(rows) and any(s != r["seq"] for s, r in zip(stripped, rows)):
             chk.corr_break("strip-groundtruth", dict(**cj, model_stripped=stripped))
@@ -698,7 +843,11 @@ def eval_direct(chk, cases):
         if clause is None and not P["has_decoys"]:
             clause = mirrored_clause(P, ents)
         if clause:
-            chk.spec_violation("spec:" + clause.split(":")[0], dict(**cj, impl=[str(e) for e in ents], expected=[str(e) for e in model], clause=clause))
+            sig = "spec:" + clause.split(":")[0]
+            if c["index"] == "dup":
+                sig = "spec:duplicate row labels"
+                clause = "table with repeated row labels: " + clause
+            chk.spec_violation(sig, dict(**cj, impl=[str(e) for e in ents], expected=[str(e) for e in model], clause=clause))
             continue
         ties = top_tie_keys(P, rows, dm)
         if ties:
@@ -722,10 +871,38 @@ def mirrored_clause(P, ents):
     return None
 
 
+def py_entries(P, rows, dm):
+    """the entries the property demands when no two candidate rows of a pair tie (ground truth, no stripping)"""
+    out = []
+    for key, lst in py_candidates(P, rows, dm).items():
+        i, g = max(lst, key=lambda ig: Fraction(rows[ig[0]]["score"]))
+        r = rows[i]
+        out.append((g, r["peptide"], r["seq"], Fraction(r["score"]), bool(r["target"])))
+    return out
+
+
+def expected_peptide_level(rows, desc):
+    """the peptide level the protein level is computed from, independently of the code: every row is its own
+    spectrum, so each distinct peptide string keeps its best row (higher is better after the orientation);
+    scores as reported (negated when lower is better); meaningful when no two rows tie"""
+    sign = 1 if desc else -1
+    best = {}
+    for r in rows:
+        o = sign * Fraction(r["score"])
+        if r["peptide"] not in best or o > best[r["peptide"]][0]:
+            best[r["peptide"]] = (o, r)
+    out = [dict(r, score=str(o)) for o, r in best.values()]
+    out.sort(key=lambda r: -Fraction(r["score"]))
+    return out
+
+
 def eval_e2e(chk, cases):
     cases = [c for c in cases if ascii_ok(c)]
     for c in cases:
         P = c["P"]
+        opts = e2e_opts(c)
+        sign = 1 if opts["desc"] else -1
+        tiefree = c["smode"] == "tiefree"
         st, pep_rows, ents = impl_e2e(c)
         cj = dict(case=jsonable({k_: v for k_, v in c.items() if not k_.startswith("_")}))
         chk.count("entry", "e2e")
@@ -733,70 +910,159 @@ def eval_e2e(chk, cases):
         chk.count("has_decoys", P["has_decoys"])
         chk.count("proteins_object", "reused-after-another-table" if c.get("warm") else "fresh")
         chk.count("outcome", st if not st.startswith("other") else "other")
+        chk.count("e2e_format", opts["fmt"])
+        chk.count("e2e_decoy_files", opts["decoys"])
+        chk.count("e2e_higher_is_better", opts["desc"])
+        chk.count("e2e_scores", c["smode"])
+        chk.count("e2e_rng", c.get("rng_kind", "int"))
+        if st == "ok":
+            chk.count("e2e_protein_entries", min(len(ents), 12) if len(ents) < 12 else 12)
+            chk.count("e2e_q_below_1", any(e[5] < 1 for e in ents))
         if st.startswith("other"):
             chk.case(None, None)
             chk.spec_violation("unexpected-exception:" + st.split(":")[1], dict(**cj, error=st, clause="assign_confidence(proteins=...) raised an unexpected exception"))
             continue
         seq_of = {r["peptide"]: r["seq"] for r in c["rows"]}
         kind_of = {r["peptide"]: r.get("kind") for r in c["rows"]}
-        if st == "ok":
+        expected = expected_peptide_level(c["rows"], opts["desc"])
+        pep_mismatch = None
+        if st == "ok" and opts["decoys"] and not tiefree:
+            # tied scores: which of two tied rows of a peptide survives is left to the code; the observed table is used
             trows = [dict(r, seq=seq_of.get(r["peptide"], "?"), kind=kind_of.get(r["peptide"])) for r in pep_rows]
         else:
-            # the peptide-level table is not observable when the run aborts: best row per peptide string
-            best = {}
-            for r in c["rows"]:
-                if r["peptide"] not in best or Fraction(r["score"]) > Fraction(best[r["peptide"]]["score"]):
-                    best[r["peptide"]] = r
-            trows = sorted(best.values(), key=lambda r: -Fraction(r["score"]))
+            # tie-free (or aborted run, where nothing is observable): the independently computed peptide level
+            trows = expected
+            if st == "ok" and opts["decoys"]:
+                obs = sorted((r["target"], r["peptide"], Fraction(r["score"])) for r in pep_rows)
+                exp = sorted((bool(r["target"]), r["peptide"], Fraction(r["score"])) for r in expected)
+                if obs != exp:
+                    # the protein level is judged against the expected peptide level below; if it still meets the
+                    # property, the difference is reported as a correspondence break of the peptide level
+                    pep_mismatch = dict(**cj, impl=[str(x) for x in obs], model=[str(x) for x in exp])
         tcase = dict(c, rows=trows)
         sresp = common.driver_batch([req("strip", [r["peptide"] for r in trows])])[0]
         v = dec(sresp)
         stripped = [a_str(x) for x in v] if isinstance(v, list) else []
         dm = replicate_pairing(tcase, stripped) if len(stripped) == len(trows) else {}
         tcase["dm"] = dm
-        args = [*wire_P(P), [[k, v] for k, v in dm.items()], wire_rows(trows)]
-        lines = [req("pickedq", *args)]
-        if st == "ok" and all(e[0] is not None for e in ents):
+        rec = c.get("_rec") or []
+        if not P["has_decoys"] and len(rec) == 1 and len(stripped) == len(trows) and (tiefree or st == "ok"):
+            # the pairing the run really used against the replica on the (expected or observed) peptide level
+            used = dict(map(tuple, rec[0]["result"]))
+            if list(used.items()) != list(dm.items()):
+                chk.case(None, None)
+                pclause = py_pairing_spec(P, trows, used) if all(s_ == r.get("seq") for s_, r in zip(stripped, trows)) else None
+                if pclause:
+                    chk.spec_violation("spec:" + pclause, dict(**cj, impl=rec[0], expected=[list(x) for x in dm.items()], clause=pclause))
+                else:
+                    chk.corr_break("pairing-args", dict(**cj, impl=rec[0], model=[list(x) for x in dm.items()]))
+                continue
+        wdm = [[k, v] for k, v in dm.items()]
+        args = [*wire_P(P), wdm, wire_rows(trows)]
+        raw_rows = [dict(r, score=str(sign * Fraction(r["score"]))) for r in trows]  # as given to assign_confidence
+        full = st == "ok" and opts["decoys"]
+        exp_ents = py_entries(P, trows, dm) if (st == "ok" and not opts["decoys"]) else None
+        lines = [req("pickedq", *args),
+                 req("pickedfiles", *wire_P(P), wdm, wire_rows(raw_rows), opts["decoys"], opts["desc"])]
+        if full and all(e[0] is not None for e in ents):
             lines.append(req("spec-C15", *args, wire_entries(ents)))
             lines.append(req("qspec", True, [[e[3], bool(e[4])] for e in ents]))
+        elif exp_ents is not None:
+            lines.append(req("qspec", True, [[e[3], bool(e[4])] for e in exp_ents]))
         resp = common.driver_batch(lines)
         mv = dec(resp[0])
+        fv = dec(resp[1])
         chk.case(None, nontrivial_key(tcase, stripped),
-                 sample=dict(entry="assign_confidence", peptide_map=P["peptide_map"], rows=[(r["target"], r["peptide"], r["score"]) for r in trows[:8]],
+                 sample=dict(entry="assign_confidence", opts=opts, peptide_map=P["peptide_map"], rows=[(r["target"], r["peptide"], r["score"]) for r in trows[:8]],
                              impl=str(ents)[:400] if ents is not None else st))
         if st != "ok":
             chk.reject(st)
             if py_outcome(P, trows, dm) == "ok":
                 clause = "assign_confidence raised (" + st + ") although every rule on mapped/shared peptides is met"
                 chk.spec_violation("spec:raised-although-mappable", dict(**cj, impl=st, expected=str(mv)[:600], clause=clause))
-            elif not (isinstance(mv, str) and mv == st):
-                chk.corr_break("e2e-raises", dict(**cj, impl=st, model=str(mv)[:300]))
+            elif not (isinstance(mv, str) and mv == st) or not (isinstance(fv, str) and fv == st):
+                chk.corr_break("e2e-raises", dict(**cj, impl=st, model=str(mv)[:300], model_files=str(fv)[:300]))
             continue
-        if isinstance(mv, str):
-            clause = py_spec(P, trows, dm, ents)
+        if isinstance(mv, str) or isinstance(fv, str):
+            clause = py_spec(P, trows, dm, ents) if full else "targets.proteins written although the model predicts " + str(mv)[:40]
             if clause:
                 chk.spec_violation("spec:" + clause, dict(**cj, impl=[str(e) for e in ents], clause=clause))
             else:
-                chk.corr_break("e2e-raises", dict(**cj, impl="ok", model=mv))
+                chk.corr_break("e2e-raises", dict(**cj, impl="ok", model=str(mv)[:300], model_files=str(fv)[:300]))
             continue
         model = [(a_str(e[0][0]), a_str(e[0][1]), a_str(e[0][2]), a_rat(e[0][3]), a_bool(e[0][4]), a_rat(e[1])) for e in mv]
-        clause = py_spec(P, trows, dm, ents)
-        if clause is None and resp[1].strip() != "ok":
-            clause = "lean spec-C15: " + resp[1].strip()
-        if clause is None and not P["has_decoys"]:
-            clause = mirrored_clause(P, [e[:5] for e in ents])
-        if clause is None:
-            qv = dec(resp[2])
-            qs = [a_rat(x) for x in qv] if isinstance(qv, list) else []
-            if len(qs) != len(ents) or any(np.float32(e[5]) != np.float32(rounded(q)) for e, q in zip(ents, qs)):
-                clause = "protein q-values differ from the C01 formula over the entries"
+
+        def file_rows(x):
+            return [(a_str(e[0][0]), a_str(e[0][1]), a_str(e[0][2]), a_rat(e[0][3]), a_bool(e[0][4]),
+                     float(np.float32(rounded(a_rat(e[1]))))) for e in x]
+
+        mfiles = [file_rows(fv[0]), None if fv[1] == "none" else file_rows(fv[1][0])]
+        ifiles = [[(e[0], e[1], e[2], e[3], e[4], float(np.float32(e[5]))) for e in ents if e[4]],
+                  [(e[0], e[1], e[2], e[3], e[4], float(np.float32(e[5]))) for e in ents if not e[4]] if opts["decoys"] else None]
+        clause = None
+        if full:
+            clause = py_spec(P, trows, dm, ents)
+            if clause is None and resp[2].strip() != "ok":
+                clause = "lean spec-C15: " + resp[2].strip()
+            if clause is None and not P["has_decoys"]:
+                clause = mirrored_clause(P, [e[:5] for e in ents])
+            if clause is None:
+                qv = dec(resp[3])
+                qs = [a_rat(x) for x in qv] if isinstance(qv, list) else []
+                if len(qs) != len(ents) or any(np.float32(e[5]) != np.float32(rounded(q)) for e, q in zip(ents, qs)):
+                    clause = "protein q-values differ from the C01 formula over the entries"
+        else:
+            # decoys=False: only targets.proteins exists; it must hold exactly the target entries the property demands
+            # (tie-free scores: they are unique), with the q-values of the C01 formula over *all* entries
+            exp_t = sorted(e for e in exp_ents if e[4])
+            got_t = sorted(e[:5] for e in ents)
+            if any(e[0] is None for e in ents):
+                clause = "entry without a protein group"
+            elif got_t != exp_t:
+                clause = py_spec(P, trows, dm, [e[:5] for e in ents] + [e for e in exp_ents if not e[4]]) or \
+                    "targets.proteins is not the target part of the picked-protein result"
+            if clause is None and not P["has_decoys"]:
+                clause = mirrored_clause(P, [e[:5] for e in ents])
+            if clause is None:
+                qv = dec(resp[2])
+                qs = [a_rat(x) for x in qv] if isinstance(qv, list) else []
+                qof = {e: q for e, q in zip(exp_ents, qs)}
+                if len(qs) != len(exp_ents) or any(np.float32(e[5]) != np.float32(rounded(qof[e[:5]])) for e in ents):
+                    clause = "protein q-values differ from the C01 formula over all entries (decoys=False)"
         if clause:
             chk.spec_violation("spec:" + clause.split(":")[0], dict(**cj, impl=[str(e) for e in ents], expected=[str(e) for e in model], clause=clause))
             continue
-        a = sorted((e[0], e[1], e[2], e[3], e[4], float(np.float32(e[5]))) for e in ents)
-        b = sorted((e[0], e[1], e[2], e[3], e[4], float(np.float32(rounded(e[5])))) for e in model)
-        if a != b:
-            chk.corr_break("pickedq", dict(**cj, impl=[str(e) for e in a], model=[str(e) for e in b]))
+        if pep_mismatch:
+            chk.corr_break("e2e-peptide-level", pep_mismatch)
+            continue
+        ties = top_tie_keys(P, trows, dm)
+        if ties:
+            chk.count("top_tie_case", True)
+        if full and not ties:
+            a = sorted((e[0], e[1], e[2], e[3], e[4], float(np.float32(e[5]))) for e in ents)
+            b = sorted((e[0], e[1], e[2], e[3], e[4], float(np.float32(rounded(e[5])))) for e in model)
+            if a != b:
+                chk.corr_break("pickedq", dict(**cj, impl=[str(e) for e in a], model=[str(e) for e in b]))
+                continue
+        if full and ties:
+            a = sorted(e[:5] for e in ents if key_of(P, e[0]) not in ties)
+            b = sorted(e[:5] for e in model if key_of(P, e[0]) not in ties)
+            if a != b:
+                chk.corr_break("pickedq", dict(**cj, impl=[str(e) for e in a], model=[str(e) for e in b]))
+            continue
+        # the two result files: same rows in the same order as the model's files when no two entries share a score
+        # (the level table is sorted by score), the same rows in any order otherwise
+        for name, fi, fm in zip(("targets.proteins", "decoys.proteins"), ifiles, mfiles):
+            if (fi is None) != (fm is None):
+                chk.corr_break("pickedfiles", dict(**cj, file=name, impl=str(fi)[:300], model=str(fm)[:300]))
+                break
+            if fi is None:
+                continue
+            distinct = len(set(e[3] for e in fm)) == len(fm)
+            if (fi != fm) if distinct else (sorted(fi) != sorted(fm)):
+                chk.corr_break("pickedfiles", dict(**cj, file=name, impl=[str(e) for e in fi], model=[str(e) for e in fm]))
+                break
+
 
 
 def eval_strip(chk, rng, n):
@@ -805,10 +1071,15 @@ def eval_strip(chk, rng, n):
 
     cols = []
     for _ in range(n):
-        mode = rng.choice(["exotic", "wf", "wf", "lower", "mixedcase"])
+        mode = rng.choice(["exotic", "wf", "wf", "lower", "mixedcase", "random", "random"])
         k = rng.randint(0, 6)
         if mode == "exotic":
             col = [(rng.choice(EXOTIC), None) for _ in range(k)]
+        elif mode == "random":
+            # arbitrary nestings of brackets, dots and letter cases: no ground truth, the regular expressions of the
+            # code against the character scans of the model
+            alpha = rng.choice(["[]().AaK", "[(.)]Ak", "[].Aa1-+", "().aK.", "[]()..AKan"])
+            col = [("".join(rng.choice(alpha) for _ in range(rng.randint(0, 9))), None) for _ in range(max(1, k))]
         elif mode == "lower":
             st = rng.choice(["lower_all", "lower_all_flank"])
             col = []
@@ -840,12 +1111,61 @@ def eval_strip(chk, rng, n):
                 continue
             chk.case(None, ("strip", tuple(p for p, _ in col)))
             chk.count("strip_dtype", dt)
+            chk.count("strip_mode", "random" if all(s_ is None for _, s_ in col) and not all(p in EXOTIC for p, _ in col) else "listed/well-formed")
             bad = [(p, i_, s) for (p, s), i_ in zip(col, impl) if s is not None and i_ != s]
             if bad:
                 chk.spec_violation("strip-spec", dict(column=[p for p, _ in col], impl=impl, expected=[s for _, s in col],
                                                       clause="stripped sequence is not the residue sequence"))
             elif impl != model:
                 chk.corr_break("strip", dict(column=[p for p, _ in col], impl=impl, model=model))
+
+
+def eval_matchdecoy(chk, rng, n, given=None):
+    """mokapot.peptides.match_decoy (the pairing step of group_without_decoys) on random target / decoy lists:
+    the real function against its contract (upper-case, distinct inputs) and against the model `matchdecoy`, the
+    seeded shuffle being drawn independently with the pandas primitive"""
+    from mokapot.peptides import match_decoy
+
+    cases = list(given or [])
+    for _ in range(0 if given else n):
+        alpha = rng.choice(["AC", "ACD", "ACDK", "ACK1", "AB-+1*", "AcK"])
+        targets = list(dict.fromkeys("".join(rng.choice(alpha) for _ in range(rng.randint(1, 4)))
+                                     for _ in range(rng.randint(0, 8))))
+        decoys = ["".join(rng.choice(alpha) for _ in range(rng.randint(0, 4))) for _ in range(rng.randint(0, 8))]
+        uniq = rng.random() < 0.6
+        if uniq:
+            decoys = list(dict.fromkeys(decoys))
+        cases.append(dict(targets=targets, decoys=decoys, seed=rng.choice([0, 1, 2, 7, 42, 12345]),
+                          rng_kind=rng.choice(["int", "int", "generator"]), alpha=alpha, uniq=uniq))
+    lines, impls = [], []
+    for c in cases:
+        perm = shuffle_perm(len(c["targets"]), c)
+        lines.append(req("matchdecoy", [c["targets"][i] for i in perm], c["decoys"]))
+        try:
+            with quiet():
+                r = match_decoy(pd.Series(c["decoys"], dtype="str"), pd.Series(c["targets"], dtype="str"), rng=rng_arg(c))
+            impls.append([list(x) for x in r.items()])
+        except Exception as e:  # noqa: BLE001
+            impls.append("other:" + type(e).__name__ + ":" + str(e)[:80])
+    resp = common.driver_batch(lines)
+    for c, impl, r in zip(cases, impls, resp):
+        v = dec(r)
+        model = [[a_str(x[0]), a_str(x[1])] for x in v] if isinstance(v, list) else v
+        chk.case(None, ("matchdecoy", tuple(c["targets"]), tuple(c["decoys"]), c["seed"], c["rng_kind"]))
+        chk.count("matchdecoy_alphabet", c["alpha"])
+        chk.count("matchdecoy_decoys", "distinct" if len(set(c["decoys"])) == len(c["decoys"]) else "repeated")
+        if isinstance(impl, str):
+            chk.spec_violation("unexpected-exception:" + impl.split(":")[1], dict(matchdecoy=c, error=impl, clause="match_decoy raised"))
+            continue
+        plain = all(ch.isupper() for w in c["targets"] + c["decoys"] for ch in w) and len(set(c["decoys"])) == len(c["decoys"])
+        if plain:
+            fake_rows = [dict(target=False, seq=d) for d in c["decoys"]]
+            clause = py_pairing_spec(dict(peptide_map={t: "x" for t in c["targets"]}), fake_rows, dict(map(tuple, impl)))
+            if clause:
+                chk.spec_violation("spec:" + clause, dict(matchdecoy=c, impl=impl, expected=model, clause=clause))
+                continue
+        if impl != model:
+            chk.corr_break("matchdecoy", dict(matchdecoy=c, impl=impl, model=model))
 
 
 # ----------------------------------------------------------------------------
@@ -908,8 +1228,9 @@ def random_cases(rng, n, big=False, e2e=False):
     db = P = None
     for i in range(n):
         if db is None or i % 3 == 0:
+            wide = e2e and rng.random() < 0.6
             for _ in range(20):
-                db = gen_db(rng, big)
+                db = gen_db(rng, big, wide=wide)
                 try:
                     P = load_proteins(db)
                     break
@@ -925,19 +1246,28 @@ def random_cases(rng, n, big=False, e2e=False):
     return out
 
 
+def unknown_violations(chk):
+    known = {f.get("signature") for f in common.known_findings(chk.prop)}
+    return [(i, s) for i, (s, _) in enumerate(chk.spec_violations) if s not in known]
+
+
 def search(chk):
     rng = chk.rng
     eval_direct(chk, random_cases(rng, 1500 * max(1, chk.budget_mult // 2), big=True))
-    if not chk.spec_violations:
+    if not unknown_violations(chk):
+        eval_matchdecoy(chk, rng, 2000)
+    if not unknown_violations(chk):
         eval_e2e(chk, random_cases(rng, 60, e2e=True))
-    if not chk.spec_violations:
+    if not unknown_violations(chk):
         exhaustive(chk, full=True, stride=3)
 
 
 def minimise(chk):
+    unknown = unknown_violations(chk)
     if not chk.spec_violations:
         return
-    sig, info = chk.spec_violations[0]
+    first = unknown[0][0] if unknown else 0   # shrink the first violation that is not a recorded known finding
+    sig, info = chk.spec_violations[first]
     if "case" not in info or not sig.startswith("spec:") or info["case"].get("entry") != "direct" \
             or sig == "spec:raised-although-mappable":
         return
@@ -956,7 +1286,7 @@ def minimise(chk):
     eval_direct(sub, [dict(c0, rows=small)])
     for s, i in sub.spec_violations:
         if s == sig:
-            chk.spec_violations[0] = (s, dict(i, shrunk_from_rows=len(c0["rows"])))
+            chk.spec_violations[first] = (s, dict(i, shrunk_from_rows=len(c0["rows"])))
             break
 
 
@@ -972,6 +1302,7 @@ def main(chk, args):
         eval_e2e(chk, [c for c in cc if c.get("entry") == "e2e"])
         eval_direct(chk, random_cases(rng, 1000 if quick else 8000, big=not quick))
         eval_strip(chk, rng, 150 if quick else 2000)
+        eval_matchdecoy(chk, rng, 150 if quick else 3000)
         eval_e2e(chk, random_cases(rng, 40 if quick else 400, e2e=True))
         exhaustive(chk, full=not quick)
         minimise(chk)
@@ -983,23 +1314,42 @@ def main(chk, args):
         "model, produced here by the real read_fasta; how they are built is C16",
         "strings are ASCII without line breaks (regular-expression '.', str.islower/upper and the RE2/re engines "
         "are only modelled on that domain); the driver answers 'unsupported' otherwise and such cases are not generated",
-        "target-only FASTA: the decoy->target pairing drawn by match_decoy is a parameter of the model; the harness "
-        "obtains it by calling the same public function with the same seed and arguments, and additionally checks "
-        "relationally (composition + mirrored group) without it",
+        "target-only FASTA: the seeded shuffle of match_decoy (`Series.sample(frac=1, random_state=rng)`) is the "
+        "parameter of the model; the harness draws it with the pandas primitive itself on 0..n-1 and the model computes "
+        "the pairing from it (sorted keys, distinct decoy sequences in table order, pop of the last target of the "
+        "composition); the pairing recorded at the call made by group_without_decoys, the one of a replicated call and "
+        "the model's must coincide, and the recorded one must meet the contract (same composition, unique target, "
+        "unpaired only when none is left) re-stated on the generator's ground truth; entries are additionally checked "
+        "relationally (composition + mirrored group)",
         "ties at the top of a pair leave the winner to the seeded shuffle: such pairs are checked against the spec "
         "only (any maximal row), all other pairs must equal the model exactly",
         "assign_confidence runs with the PEP kernel replaced by zeros (tiny tables make triqler/NNLS degenerate; "
-        "PEPs are C06); the peptide-level table fed to picked_protein is read from targets/decoys.peptides",
+        "PEPs are C06); every PSM is its own spectrum, so with tie-free scores the peptide-level table fed to "
+        "picked_protein is computed independently (best row per peptide string after the orientation of descs) and "
+        "compared with targets/decoys.peptides; with tied scores (and only then) the observed table is used",
+        "decoys=False hides the decoy entries: such runs are generated tie-free, targets.proteins must equal the target "
+        "part of the (then unique) expected entries with the C01 q-values over all expected entries",
+        "duplicate row labels of the table given to picked_protein are part of the generated input forms; the "
+        "implementation returns several rows per pair there (known finding, signature 'spec:duplicate row labels')",
         "scores are integers or dyadic rationals (exact in float64/float32 and in the text round trip); protein "
         "q-values are compared after the same float32 rounding primitive as in C01",
     ]
     chk.finish(build, RULE, search=search, lc=lc,
                trusted_extra=["pandas str.replace/str.split/map/sample/sort_values/drop_duplicates/to_csv/read_csv, "
-                              "numpy; mokapot.read_fasta (C16) and mokapot.peptides.match_decoy as input producers"])
+                              "to_parquet, numpy (RandomState / Generator.choice behind Series.sample); mokapot.read_fasta "
+                              "(C16) as input producer"])
 
 
 def replay(chk, path):
     info = json.loads(open(path).read())
+    if "matchdecoy" in info:
+        common.build_and_audit("C15")
+        eval_matchdecoy(chk, chk.rng, 0, given=[info["matchdecoy"]])
+        for sig, i in chk.spec_violations:
+            print("REPRODUCED", sig, json.dumps(i, default=str)[:1500])
+        for op, i in chk.corr_breaks:
+            print("CORRESPONDENCE-BREAK", op, json.dumps(i, default=str)[:1500])
+        return 1 if (chk.spec_violations or chk.corr_breaks) else 0
     if "case" not in info:
         print(json.dumps(info, indent=1)[:3000])
         return 0
